@@ -513,7 +513,11 @@ func vfE1SReident(n *NSQD, cb vfE1SCombo, idx int, r *vfRand) (key, what string)
 		if err := c.identify(fmt.Sprintf(`{"client_id":"vfreid","output_buffer_size":%d}`, sz)); err != nil {
 			return "harness", "second IDENTIFY write: " + err.Error()
 		}
-		if _, _, err := c.frame(4 * time.Second); err != nil || sniff(okFrame) {
+		_, _, err := c.frame(15 * time.Second)
+		if ne, ok := err.(net.Error); ok && ne.Timeout() && !sniff(okFrame) {
+			return "harness", fmt.Sprintf("IDENTIFY #%d: no answer within 15 s (%v)", k+2, err)
+		}
+		if err != nil || sniff(okFrame) {
 			clear := ""
 			if sniff(okFrame) {
 				clear = "; the plain frame 00000006 00000000 \"OK\" is on the raw socket"
@@ -548,7 +552,10 @@ func vfE1SReident(n *NSQD, cb vfE1SCombo, idx int, r *vfRand) (key, what string)
 		t.PutMessage(NewMessage(t.GenerateID(), body))
 	}
 	for len(want) > 0 {
-		ft, data, err := c.frame(6 * time.Second)
+		ft, data, err := c.frame(20 * time.Second)
+		if ne, ok := err.(net.Error); ok && ne.Timeout() && !sniff(secret) {
+			return "harness", fmt.Sprintf("%d of %d messages did not arrive within 20 s (%v)", len(want), nmsg, err)
+		}
 		if err != nil {
 			clear := ""
 			if sniff(secret) {
